@@ -63,7 +63,16 @@ class Ctx:
         sh("python3 %s" % os.path.join(ROOT, "tools", "gen_shared.py"))
         if not os.path.exists(os.path.join(COQ, "Makefile")):
             sh("coq_makefile -f _CoqProject -o Makefile", cwd=COQ)
-        rc, out = sh("timeout 3000 make -j16", cwd=COQ)
+        # a regenerated Gen/*.v invalidates the compiled files of Gen/ (so that a file which no longer
+        # compiles cannot be satisfied by its stale .vo); -k: one property's broken obligation must not
+        # stop the files of the other properties from being built
+        gen = os.path.join(COQ, "Gen")
+        stale = [f for f in glob.glob(os.path.join(gen, "*.v"))
+                 if not os.path.exists(f + "o") or os.path.getmtime(f) > os.path.getmtime(f + "o")]
+        if stale:
+            for f in glob.glob(os.path.join(gen, "*.vo")) + glob.glob(os.path.join(gen, "*.vos")) + glob.glob(os.path.join(gen, "*.vok")):
+                os.remove(f)
+        rc, out = sh("timeout 3000 make -k -j16", cwd=COQ)
         open(os.path.join(self.work, "coq_build.log"), "w").write(out)
         return rc == 0, out
 
@@ -90,15 +99,15 @@ class Ctx:
             names = thm_re.findall(re.sub(r"\(\*.*?\*\)", "", src, flags=re.S))
             res["theorems"] += [n for _, n in names]
         if not ok:
+            # some file of the development does not compile.  It concerns THIS property only if one of its own
+            # files (or something they import) is affected: that shows when they are re-checked below.
             m = re.search(r"File \"([^\"]+)\", line (\d+).*?\nError:(.*?)(?:\n\n|\Z)", out, re.S)
-            res["failed"] = (m.group(0)[:2000] if m else out[-2000:])
-            self.proof = res
-            return res
+            res["other_failures"] = (m.group(0)[:1200] if m else out[-1200:])
         for f in files:
             rc, o = sh("timeout 1200 coqc -Q . Tinode %s" % f, cwd=COQ)
             open(os.path.join(self.work, os.path.basename(f) + ".log"), "w").write(o)
             if rc != 0:
-                res["failed"] = o[-2000:]
+                res["failed"] = o[-2000:] + ("\n(full build: " + res["other_failures"] + ")" if res.get("other_failures") else "")
                 break
             # Print Assumptions output blocks appear in theorem order
             blocks = re.split(r"(?=Closed under the global context|Axioms:)", o)
@@ -111,8 +120,94 @@ class Ctx:
                 else:
                     res["axioms"][name] = b.strip().split("\n")[1:]
             res["printed"] = res.get("printed", []) + printed
+        if not ok and not res["failed"]:
+            res["build_ok"] = True      # the failure is in files this property does not depend on
+        if not res["failed"]:
+            err = self.consts_obligation()
+            if err:
+                res["failed"] = "constants obligation: " + err
+            else:
+                if self.coverage.get("consts_tie"):
+                    res["theorems"].append("consts_%s_ok" % self.pid.lower())
+                    res["closed"].append("consts_%s_ok" % self.pid.lower())
+        if self.tier == "thorough" and not res["failed"]:
+            res["coqchk"] = self.coqchk(files)
+            if not res["coqchk"]["ok"]:
+                res["failed"] = "coqchk rejects the compiled development: " + res["coqchk"]["summary"][-1500:]
         self.proof = res
         return res
+
+    def coqchk(self, files):
+        """Thorough tier: re-check the compiled property files and everything they depend on with
+        the independent checker coqchk (-o prints the axioms).  One run per state of the .vo files."""
+        h = hashlib.md5()
+        for f in sorted(glob.glob(os.path.join(COQ, "**", "*.vo"), recursive=True)):
+            h.update(f.encode())
+            h.update(hashlib.md5(open(f, "rb").read()).digest())
+        mods = ["Tinode." + f[:-2].replace("/", ".") for f in files]
+        cdir = os.path.join(BUILD, "coqchk")
+        os.makedirs(cdir, exist_ok=True)
+        cache = os.path.join(cdir, "%s-%s.txt" % (self.pid, h.hexdigest()[:16]))
+        cmd = "coqchk -silent -o -Q . Tinode " + " ".join(mods)
+        t0 = time.time()
+        if os.path.exists(cache):
+            out, cached = open(cache).read(), True
+        else:
+            rc, out = sh("timeout 5400 " + cmd, cwd=COQ)
+            out = "exit=%d\n" % rc + out
+            cached = False
+            if rc == 0:
+                open(cache, "w").write(out)
+        ok = out.startswith("exit=0")
+        m = re.search(r"\* Axioms:(.*?)\n\s*\n\* Constants/Inductives relying on type-in-type", out, re.S)
+        axioms = " ".join(m.group(1).split()) if m else "?"
+        bad = ok and not ("type-in-type: <none>" in out and "unsafe (co)fixpoints: <none>" in out and "positivity is assumed: <none>" in out)
+        return {"ok": ok and not bad, "cmd": cmd, "axioms": axioms, "cached": cached, "wall_s": round(time.time() - t0, 1),
+                "summary": out[-1200:]}
+
+    def consts_obligation(self):
+        """Constants tie (translator-style, regenerated on every run): the numeric constants this property's
+        models copy from the Go code (tools/consts_map.json) are read from the tree under test through the
+        package-main driver and compared INSIDE Coq with the model's definitions (a generated file with one
+        theorem, compiled with coqc against the built development).  Returns None or an error text."""
+        mp = os.path.join(ROOT, "tools", "consts_map.json")
+        if not os.path.exists(mp):
+            return None
+        ents = json.load(open(mp)).get(self.pid)
+        if not ents:
+            return None
+        ok, out = self.build_main()
+        if not ok:
+            return None          # the plugin reports the broken harness build itself
+        rc, ans, log = self.run_main_lines("consts", ["K " + e[2] for e in ents])
+        if rc != 0 or len(ans) != len(ents):
+            return "constants driver failed: " + log[-600:]
+        vals = {}
+        for a in ans:
+            w = a.split()
+            if len(w) == 3 and w[2] != "?":
+                vals[w[1]] = int(w[2])
+        lines = ["(* GENERATED by tools/vlib.py consts_obligation from the tree under test *)",
+                 "From Coq Require Import NArith ZArith Bool.", ""]
+        conj = []
+        for q, ty, g in ents:
+            if g not in vals:
+                return "Go constant %s is not reported by the driver (zz_verif_consts_test.go)" % g
+            mod = q.rsplit(".", 1)[0]
+            lines.append("Require %s." % mod)
+            conj.append("(%s.eqb (%s : %s) %d%%%s)" % (ty, q, ty, vals[g], ty))
+        lines.append("Theorem consts_%s_ok : %s = true." % (self.pid.lower(), " && ".join(conj)))
+        lines.append("Proof. vm_compute. reflexivity. Qed.")
+        f = os.path.join(self.work, "ObConsts%s.v" % self.pid)
+        open(f, "w").write("\n".join(lines) + "\n")
+        rc, o = sh("timeout 600 coqc -Q %s Tinode -o %s %s" % (COQ, f + "o", f), cwd=self.work)
+        self.coverage["consts_tie"] = {"constants": [[q, g, vals[g]] for q, _, g in ents], "ok": rc == 0}
+        if rc != 0:
+            bad = []
+            for q, ty, g in ents:
+                bad.append("%s vs %s=%d" % (q, g, vals[g]))
+            return "a Go constant no longer has the value the model assumes (%s): %s" % ("; ".join(bad)[:900], o[-500:])
+        return None
 
     def proof_ok(self):
         p = self.proof
@@ -231,6 +326,8 @@ class Ctx:
                 "theorems": p["theorems"],
                 "print_assumptions": {"closed_under_global_context": p["closed"], "axioms": p["axioms"]},
             })
+            if p.get("coqchk"):
+                cov["coqchk"] = {k: p["coqchk"][k] for k in ("ok", "cmd", "axioms", "cached", "wall_s")}
         cov.setdefault("trusted_base", [])
         cov["trusted_base"] = KERNEL_TB + cov["trusted_base"]
         cov["known_findings_hit"] = sorted(hit.keys())
